@@ -137,7 +137,9 @@ FluentsOfExpr(e) ==
     [] e.k = "bin" -> FluentsOfExpr(e.l) \cup FluentsOfExpr(e.r)
     [] OTHER -> {}
 
-WFProblem(D, P) ==
+\* dv: known deviation "GoalFluentUnchecked" - the fluent terms inside numeric
+\* goal conditions are not validated (type, arity, existence of the objects)
+WFProblemD(D, P, dv) ==
   LET objs == PairsToFn(P.objs)
       tn   == TypeNamesOf(D) \cup {"object"}
   IN /\ P.ok /\ P.domain = D.name
@@ -146,7 +148,10 @@ WFProblem(D, P) ==
      /\ \A g \in P.init.facts : WFGround(D, objs, D.preds, g)
      /\ \A g \in DOMAIN P.init.fl : WFGround(D, objs, D.funcs, g)
      /\ \A g \in P.goal.lits : WFGround(D, objs, D.preds, g)
-     /\ \A c \in P.goal.cmps : \A g \in FluentsOfExpr(c.l) \cup FluentsOfExpr(c.r) : WFGround(D, objs, D.funcs, g)
+     /\ ("GoalFluentUnchecked" \in dv
+           \/ \A c \in P.goal.cmps : \A g \in FluentsOfExpr(c.l) \cup FluentsOfExpr(c.r) : WFGround(D, objs, D.funcs, g))
+
+WFProblem(D, P) == WFProblemD(D, P, {})
 
 \* a call is type correct when every argument is an object or constant whose
 \* type conforms to the parameter's
